@@ -41,13 +41,16 @@ def profile(r, tier, index):
         }
     return {
         "mailboxes": ["inbox", "work"], "sessions": r.randint(1, 2), "weights": W, "init_lo": 3, "init_hi": 12, "sparse": True,
-        "ops_lo": 10, "ops_hi": 45 if tier == "thorough" else 30, "mode": "sequential", "pack_knob": True, "pack_p": 0.9, "bad_set_p": 0.02,
+        "ops_lo": 10, "ops_hi": 45 if tier == "thorough" else 30, "mode": "sequential", "probe_p": r.choice((1.0, 1.0, 0.35, 0.1)), "pack_knob": True, "pack_p": 0.9, "bad_set_p": 0.02,
         "name_alphabet": ["new", "old", "x"], "shapes": None,
         "fetch_items": ["(UID BODY.PEEK[])", "(UID INTERNALDATE)", "(BODY.PEEK[HEADER.FIELDS (X-Tok)])", "(UID FLAGS)"],
     }
 
 
 def post(prog, r, tier, prof):
+    if prog["mode"] != "concurrent" and r.random() < 0.4:
+        # deliveries the server cannot notice (same mtime second) followed by idle time: the pack path meets unknown files
+        _common.inject_stealth(prog, r, 0.3)
     if prog["mode"] == "concurrent":
         for op in prog["ops"]:
             op["when"] = {"delay": r.choice((0.0, 0.0, 0.0, 0.001, 0.01, 0.05, 0.3))}
